@@ -9,6 +9,12 @@
 // and not any particular choice of labels (how many, which kinds: free, see DESIGN.md 3.1).
 
 use super::*;
+// vacuity guards: a cover that must be SATISFIED.  Compiled out (env VERIF_NO_COVER, set only by the
+// engine's counterexample re-run) because Kani's concrete playback emits a single test per harness and
+// prefers a satisfied cover over the failed assertion.
+macro_rules! vcover {
+    ($($t:tt)*) => { if option_env!("VERIF_NO_COVER").is_none() { kani::cover!($($t)*); } };
+}
 use core::mem::forget;
 use crate::passes::semantics::time_and_difficulty::TimeAndDifficultyHelper;
 use crate::passes::semantics::time_and_difficulty::verif_kani::helper_at;
@@ -31,8 +37,8 @@ fn c13_emit_inverse() {
     assert!(h.time() == t);
     assert!(le.prev_time == t);
     if prev == t { assert!(n_emitted == 0); }   // no label, no change: a statement inherits the previous time
-    kani::cover!(prev < 0 && t > 0);
-    kani::cover!(t < prev);
+    vcover!(prev < 0 && t > 0);
+    vcover!(t < prev);
     forget(h);
 }
 
